@@ -887,6 +887,12 @@ def _read_header_batch(
     except RpcError:
         _drain_stream(reader)
         raise
+    except Exception:
+        # e.g. the caller's on_log callback raised: still read the header
+        # stream to its end so the connection stays at a message boundary.
+        with contextlib.suppress(Exception):
+            _drain_stream(reader)
+        raise
     _drain_stream(reader)
     return resolve_external_location(batch, cm, external_config, on_log, ipc_validation)
 
@@ -1030,6 +1036,14 @@ def _read_unary_response(
         batch = _read_batch_with_log_check(reader, on_log, external_config, shm=shm)
     except RpcError:
         _drain_stream(reader)
+        raise
+    except Exception:
+        # Anything else — typically the caller's ``on_log`` callback raising —
+        # must not leave the response half read: the next call on this
+        # connection (or the next borrower of a pooled worker) would be handed
+        # the rest of it.  Best effort; a dead transport fails the drain too.
+        with contextlib.suppress(Exception):
+            _drain_stream(reader)
         raise
     try:
         _drain_stream(reader)
